@@ -33,26 +33,64 @@ def run_boot(sc: dict, wall_limit: float = 60.0) -> dict:
     log: list[list] = []
     errors: list[str] = []
 
+    list_no: dict[str, int] = {}
+
     class SlowListSession(fakeapi.FakeSession):
-        """LIST requests of a kind take `list_delay[kind]` longer (a big or slow collection)."""
+        """LIST requests of a kind take `list_delay[kind]` longer (a big or slow collection); the first
+        `list_errors[kind]` of them are answered 503 after that time (kopf retries them with its back-offs).
+        Every LIST of a generated kind is logged from the SERVER's side: `list-start`, and then `list-end`
+        (answered 200, with the number of items), `list-error` (answered 503) or `list-abandoned` (the client
+        gave the request up before the answer: cancelled)."""
 
         async def request(self, method: str, url: str, *a: Any, **kw: Any) -> Any:
             import urllib.parse
             u = urllib.parse.urlparse(url)
             if method.upper() == "GET" and "watch=true" not in (u.query or ""):
                 routed = self.cluster.route(u.path)
-                if routed is not None and routed[2] is None:
-                    d = sc.get("list_delay", {}).get(routed[0].plural, 0)
-                    if d:
-                        await asyncio.sleep(d)
+                if routed is not None and routed[2] is None and routed[0].plural in defs:
+                    kind = routed[0].plural
+                    loop = asyncio.get_running_loop()
+                    list_no[kind] = list_no.get(kind, 0) + 1
+                    log.append(["list-start", kind, loop.time()])
+                    try:
+                        d = sc.get("list_delay", {}).get(kind, 0)
+                        if d:
+                            await asyncio.sleep(d)
+                        if list_no[kind] <= int(sc.get("list_errors", {}).get(kind, 0)):
+                            log.append(["list-error", kind, loop.time()])
+                            return self._track(fakeapi.FakeResponse(503, fakeapi._status(503, "Injected", "injected 503", None)))
+                        resp = await super().request(method, url, *a, **kw)
+                    except asyncio.CancelledError:
+                        log.append(["list-abandoned", kind, loop.time()])
+                        raise
+                    n_items = len((resp.payload or {}).get("items", [])) if resp.status == 200 else None
+                    log.append(["list-end" if resp.status == 200 else "list-error", kind, loop.time(), n_items])
+                    return resp
             return await super().request(method, url, *a, **kw)
+
+    defs: dict[str, Any] = {}
 
     async def main() -> dict:
         import kopf
         loop = asyncio.get_running_loop()
-        defs = {k["name"]: fakeapi.ResourceDef(GROUP, VERSION, k["name"], k["name"].capitalize(), namespaced=True)
-                for k in sc["kinds"]}
-        cluster = fakeapi.Cluster([fakeapi.NAMESPACES, fakeapi.CRDS] + list(defs.values()))
+        defs.update({k["name"]: fakeapi.ResourceDef(GROUP, VERSION, k["name"], k["name"].capitalize(), namespaced=True)
+                     for k in sc["kinds"]})
+        peered = bool(sc.get("peering"))
+        cluster = fakeapi.Cluster([fakeapi.NAMESPACES, fakeapi.CRDS] + ([fakeapi.CLUSTER_PEERING] if peered else [])
+                                  + list(defs.values()))
+
+        def ghost(present: bool) -> None:
+            """A foreign operator of a higher priority shows up in / leaves the peering object: the REAL peering
+            (process_peering_event) turns the operator's pause toggle on / off."""
+            import datetime
+            rec = ({"priority": 9999, "lifetime": 3600,
+                    "lastseen": simloop.WALL.now(tz=datetime.timezone.utc).isoformat()} if present else None)
+            cluster.edit(fakeapi.CLUSTER_PEERING, None, "default", {"status": {"boss": rec}})
+
+        if peered:
+            cluster.create_raw(fakeapi.CLUSTER_PEERING, None, "default", {})
+            if sc["peering"].get("paused_at_start"):
+                ghost(True)
         for o in sc["objects"]:
             meta: dict[str, Any] = {"labels": {"grp": "a"}}
             if o.get("handled_before"):
@@ -117,7 +155,11 @@ def run_boot(sc: dict, wall_limit: float = 60.0) -> dict:
                     raise ValueError(h)
 
         settings = runner.default_settings(**sc.get("settings", {}))
-        op = runner.Operator(cluster, reg, settings, identity="op", clusterwide=True, standalone=True)
+        if peered:
+            op = runner.Operator(cluster, reg, settings, identity="op", clusterwide=True, standalone=False,
+                                 priority=0, peering_name="default")
+        else:
+            op = runner.Operator(cluster, reg, settings, identity="op", clusterwide=True, standalone=True)
         op.session = SlowListSession(cluster, identity=op.session.identity)
         await op.start()
         log.append(["operator-started", loop.time()])
@@ -134,6 +176,12 @@ def run_boot(sc: dict, wall_limit: float = 60.0) -> dict:
             elif what == "delete":
                 cluster.mutate(defs[kind], "ns", name, lambda b: b["metadata"].pop("finalizers", None))
                 cluster.delete(defs[kind], "ns", name)
+            elif what == "pause":
+                ghost(True)
+            elif what == "resume":
+                ghost(False)
+            else:
+                raise ValueError(what)
             log.append(["op", what, kind, name, loop.time(), arg])
         d = t0 + float(sc.get("end", 12.0)) - loop.time()
         if d > 0:
